@@ -259,6 +259,7 @@ class Facts:
             self.by_path.setdefault(b.path, []).append(b)
         self.adts = {a["path"]: a for a in d["adts"]}
         self.impls = d["impls"]
+        self.ext_enums = {e["path"]: e for e in d.get("ext_enums", [])}
         self.layouts = d["layouts"]
         self.own = [b for b in self.bodies if not b.file.startswith("/")]
 
